@@ -527,6 +527,13 @@ def single_campaign(ck: Ck, scs: list[dict], do_model: bool) -> None:
             return d
         base = run_single(sc, fresh('base'))
         ck.count('fault_free_runs')
+        stray = sorted(os.listdir('.')) if os.getcwd() == str(ck.scratch / 'cwd') else []
+        if stray:
+            ck.violation('temp-file-outside-destination-directory',
+                         f'the writer created {stray} in the current directory instead of next to the destination '
+                         '(a rename across directories/file systems is not atomic)', replay_obj('fault', sc, k=0))
+            for s in stray:
+                os.unlink(s) if os.path.isfile(s) else shutil.rmtree(s, ignore_errors=True)
         ops0 = base['ops']
         nm = NameMap(sc)
         old = sc['init'].get(sc['dest'])
@@ -576,8 +583,10 @@ def single_campaign(ck: Ck, scs: list[dict], do_model: bool) -> None:
             if not do_model or patho:
                 return
             if real_events is None:
-                ck.obligation(f'correspondence:trace:{sc["kind"]}', False, what.get('why', 'operation outside the model'))
-                ck.tie_broken.append('correspondence AtomicWriter trace: ' + what.get('why', ''))
+                name = f'correspondence:trace:{sc["kind"].split("-")[0]}'
+                if not any(o['name'] == name for o in ck.obligations):
+                    ck.obligation(name, False, what.get('why', 'operation outside the model'))
+                    ck.tie_broken.append('correspondence AtomicWriter trace: ' + what.get('why', ''))
                 return
             coq = (f'corr_case aw_cfg {nm.coq_init()} {scen_coq} {cut} {coq_list(map(str, faults))} '
                    f'{coq_list(nm.probe_names(max_tmp))}')
@@ -1008,6 +1017,17 @@ def run(ck: Ck) -> None:
         ck.notes.append('AtomicWriter source differs from the versions the model was written against: thorough budgets')
         ck.extra['escalated_by_digest'] = True
     import time
+    cwd0 = os.getcwd()
+    (ck.scratch / 'cwd').mkdir(exist_ok=True)
+    os.chdir(ck.scratch / 'cwd')       # relative temp names would land here, where they are noticed
+    try:
+        _campaigns(ck, built)
+    finally:
+        os.chdir(cwd0)
+
+
+def _campaigns(ck: Ck, built: bool) -> None:
+    import time
     stage: dict[str, float] = {}
     ck.extra['stage_seconds'] = stage
     stage['translate+build+obligations'] = round(time.time() - ck.t0, 1)
@@ -1041,6 +1061,12 @@ def run(ck: Ck) -> None:
             ck.explain(nme)
     if keys:
         ck.explain('correspondence:')
+    if any('mixture' in k or k.startswith(('dest-changed', 'new-content', 'temp-left', 'temp-file-outside', 'wrong-content',
+                                            'two-writers:', 'foreign-file'))
+           for k in keys):
+        ck.explain('translate:')
+    if 'temp-file-outside-destination-directory' in keys:
+        ck.explain('instance:temp_is_sibling_of_destination')
 
 
 def single_campaign_bsp(ck: Ck, bscs: list[dict], do_model: bool) -> None:
